@@ -74,6 +74,14 @@ instance (t : Timestamp) : Decidable t.WF := by unfold Timestamp.WF; infer_insta
 def Timestamp.new (seconds nanos : Nat) : Except Fail Timestamp :=
   if seconds ≥ 2 ^ 48 ∨ nanos ≥ 1000000000 then .error .invalid else .ok ⟨seconds, nanos⟩
 
+/-- `Timestamp::try_set_seconds`: the same guard as `Timestamp::new` on the seconds -/
+def Timestamp.trySetSeconds (t : Timestamp) (seconds : Nat) : Except Fail Timestamp :=
+  if seconds ≥ 2 ^ 48 then .error .invalid else .ok { t with seconds := seconds }
+
+/-- `Timestamp::try_set_nanos`: the same guard as `Timestamp::new` on the nanoseconds -/
+def Timestamp.trySetNanos (t : Timestamp) (nanos : Nat) : Except Fail Timestamp :=
+  if nanos ≥ 1000000000 then .error .invalid else .ok { t with nanos := nanos }
+
 /-- `Timestamp::deserialize` (fixed: `nanos >= 1_000_000_000` is rejected) -/
 def Timestamp.deserialize : Bytes → Except Fail Timestamp
   | s0 :: s1 :: s2 :: s3 :: s4 :: s5 :: n0 :: n1 :: n2 :: n3 :: _ =>
